@@ -97,7 +97,8 @@ def run_case(case, ctx):
     N = len(V)
     la_ref = R.rbm_log_marginal(am, V)
     lp_ref = R.rbm_log_marginal(ph, V) if ph is not None else None
-    tau = TAU * nh
+    tau = gen.tau_sp(nv, am, ph)  # zero unless a unit saturates beyond softplus' switch-over
+    ctx.seen("softplus_budget_in_force", tau > 0)
 
     use_san = case["rep"] % 4 == 0
     mon = monitors.DispatchMonitor(float_check=True) if use_san else None
